@@ -11,7 +11,9 @@ import (
 )
 
 func init() {
-	register("C01", ruleC01FilterLoop, ruleC01CmpTable, ruleC01Membership, ruleC01Between, ruleC01Like, ruleC01Connectives, ruleC01Where)
+	register("C01", ruleC01FilterLoop, ruleC01CmpTable, ruleC01Membership, ruleC01Between, ruleC01Like, ruleC01Connectives, ruleC01Where,
+		// the value ordering C01 relies on ("numeric order on numbers, lexicographic on strings"): shared with C15
+		ruleC15Range, ruleC15Trichotomy, ruleC15ExactDomain, ruleC15Dispatch)
 }
 
 const sqlp = "github.com/vedadiyan/sqlparser/v2"
@@ -941,6 +943,34 @@ func ruleC01Like(c *Ctx) {
 		}
 	}
 	c.Check(len(why) == 0, "c01.like-escape", key, c.P.Pos(matchCall.Pos()), "QuoteMeta inside; _ and % only; anchored; same case fold: "+pat.String(), strings.Join(why, "; "))
+	// every return of the LIKE function is the regexp's verdict (no shortcut that bypasses the translation)
+	{
+		paths, err := WalkFunc(like, WalkCfg{MaxVisits: 1})
+		okR, whyR := err == nil, ""
+		if err != nil {
+			whyR = err.Error()
+		}
+		nR := 0
+		for _, p := range paths {
+			if p.Exit != "return" || len(p.Ret) == 0 {
+				continue
+			}
+			nR++
+			t := p.Ret[0].T
+			fromMatch := t != nil && t.Contains(func(x *Term) bool { return x.V == ssa.Value(matchCall) })
+			isErrRet := len(p.Ret) == 2 && !p.Ret[1].Nil && !(p.Ret[1].T != nil && p.Ret[1].T.Contains(func(x *Term) bool { return x.V == ssa.Value(matchCall) }))
+			if !fromMatch && !isErrRet {
+				okR, whyR = false, "a path returns "+avString(p.Ret[0])+" without consulting the translated regexp (under "+p.String()+")"
+			}
+			if fromMatch && !(t.Op == "ext" && t.Name == "0") {
+				okR, whyR = false, "a path returns "+t.String()+" instead of the match verdict"
+			}
+		}
+		if nR == 0 {
+			okR, whyR = false, "no return path"
+		}
+		c.Check(okR, "c01.like-escape", key+"/all-returns", c.P.Pos(like.Pos()), fmt.Sprintf("%d return paths all yield the regexp verdict", nR), whyR)
+	}
 
 	// the two arms in the comparison dispatch
 	f, ep := c.comparisonFunc()
